@@ -136,7 +136,7 @@ func GenCont(r *simrt.Rand, excl map[string]bool) *ContProg {
 			}
 		}
 	}
-	nops := 2 + r.Intn(11)
+	nops := 2 + r.Intn(11*Scale)
 	for len(p.Ops) < nops {
 		g.usedMixed = false
 		op, ok := g.op(mixed)
